@@ -1,11 +1,11 @@
 #!/bin/bash
-# dev aid: ./seedaccept.sh <pid> [<pid>...]  -- takes round-3 deliveries /tmp/s3_<pid>/_out/{A,B}, confirms them independently
+# dev aid: ./seedaccept.sh <pid> [<pid>...]  -- takes round-3 deliveries /tmp/s4_<pid>/_out/{A,B}, confirms them independently
 # (suite unchanged, demo fails with / passes without the change) in a scratch worktree, stores them as seeded/<pid>-4 / -5,
 # and runs the property's quick check against each in scratch copies. Appends to seeded/ACCEPT.txt
 for pid in "$@"; do
- n=4
+ n=${SEEDN:-6}
  for ab in A B; do
-  src=/tmp/s3_$pid/_out/$ab
+  src=/tmp/s4_$pid/_out/$ab
   [ -f $src/patch.diff ] || { echo "$pid $ab: no delivery" | tee -a /verif/seeded/ACCEPT.txt; n=$((n+1)); continue; }
   id=$pid-$n; dst=/verif/seeded/$id; n=$((n+1))
   W=/tmp/acc_$id; rm -rf $W; mkdir -p $W
